@@ -15,6 +15,7 @@ import (
 	"github.com/go-task/task/v3/internal/env"
 	"github.com/go-task/task/v3/internal/filepathext"
 	"github.com/go-task/task/v3/internal/templater"
+	"github.com/go-task/task/v3/internal/verifhook"
 	"github.com/go-task/task/v3/taskfile/ast"
 )
 
@@ -281,6 +282,7 @@ func (r *Reader) include(ctx context.Context, node Node) error {
 			}
 
 			// Create an edge between the Taskfiles
+			verifhook.At("include.fetched", include.Namespace)
 			r.graph.Lock()
 			defer r.graph.Unlock()
 			edge, err := r.graph.Edge(node.Location(), includeNode.Location())
@@ -308,6 +310,7 @@ func (r *Reader) include(ctx context.Context, node Node) error {
 					Destination: includeNode.Location(),
 				}
 			}
+			verifhook.At("include.linked", include.Namespace)
 			return err
 		})
 	}
